@@ -103,34 +103,37 @@ theorem tn_succ {k : Nat} (ihP : TPk fl mo tmpl max prog F k) (hprog : ∀ c ∈
         cases g0 with
         | var v => exact absurd rfl (hnv0 v)
         | _ => intro v hv'; simp [Term.subst] at hv'
-      have hcg0 : callGoal g .done env m = clausesCall [clauseOf (qClause g')] (argList (qHead g')) .done env m :=
-        callGoal_ok g .done env m g0 g' hres0 hnv0 happ hb hw
-      have e1 : p0 = ({ id := m.user.nextId, delayed := [Thunk.clause (clauseOf (qClause g')) (argList (qHead g')) .done env m.user.nextId] } : Pr) := by
-        rw [hp0, hcg0]; simp [clausesCall, freshId]
-      have e2 : m0 = { m with user := { m.user with nextId := m.user.nextId + 1 } } := by
-        rw [hm0, hcg0]; rfl
+      obtain ⟨cs, hrel, hcg0⟩ := callGoal_okM g .done env m g0 g' hres0 hnv0 happ hb hw
       have hix : img σ π g = g'.rename π := by rw [hg']; rfl
       have hrnv : ∀ v, g'.rename π ≠ .var v := by
         intro v hv'
         cases g' with
         | var w => exact absurd rfl (hg'nv w)
         | _ => simp [Term.rename, Term.subst] at hv'
+      have htop : ∀ f, g'.rename π ≠ .app f .nil := by
+        intro f hf
+        obtain ⟨as', rfl, has⟩ := rename_eq_app hf
+        rw [subst_eq_nil has] at hw
+        simp [wfT] at hw
       cases n1 with
       | zero => rw [solve_zero] at hs1'; cases hs1'
       | succ n2 =>
-      rw [hix, solve_call1 _ _ _ _ _ _ _ _ _ (fl := fl) (by rw [bodyS_rename]; exact hb)
-        (by rw [wfT_rename]; exact hw) hrnv] at hs1'
+      rw [hix, solve_call1M _ _ _ _ _ _ _ _ _ (fl := fl) (by rw [dbodyS_rename]; exact hb) htop hrnv] at hs1'
       have hgv : ∀ v, g'.hasVar v = true → RV σ D v := fun v hv' => by rw [hg'] at hv'; exact vars_subst_rv hgD hv'
-      obtain ⟨hW2, hgD2, hitem⟩ := call_item (fl := fl) (d := d + 1 + 1) hW hb hw hgv
+      obtain ⟨hW2, hgD2, its, hits1, hits2, hitsR⟩ := call_items (fl := fl) (d + 1 + 1) hW hgv hrel
+      have e1 : p0 = ({ id := m.user.nextId, delayed := its.map (fun it => Thunk.clause it.1 (argList (qHead g')) .done env m.user.nextId) } : Pr) := by
+        rw [hp0, hcg0, ← hits1]; simp [clausesCall, freshId, List.map_map, Function.comp_def]
+      have e2 : m0 = { m with user := { m.user with nextId := m.user.nextId + 1 } } := by
+        rw [hm0, hcg0]; rfl
       rw [e1, e2]
       refine ⟨hst.nextId, rfl, Nat.le_refl _, (PSpec.alts
         (m := { m with user := { m.user with nextId := m.user.nextId + 1 } })
-        (its := [(clauseOf (qClause g'), qClause g', some (.frames (SLD.bodyFrames false (g'.rename π) (d + 1 + 1))))])
+        (its := its)
         (g := qHead g') (R := .goal (.atom "!") d :: .goal (SLD.call1 (.atom "fail")) l :: R)
         rfl (Nat.pos_iff_ne_zero.1 hst.2.1) (qHead_shape g')
         ⟨N, σ, π, _, [], hN, hW2, .done rfl, .nil (show TailOK (some d) _ from ⟨l, R, rfl⟩), CutsOK.nil _, hq', hgD2,
-          .cons hitem .nil⟩
-        (by simpa [SLD.bodyFrames] using hs1')).toW⟩
+          hitsR⟩
+        (by rw [hits2]; exact hs1')).toW⟩
   obtain ⟨hst0, hans0, hnv0, hspecN⟩ := hst0
   have hcan : m0.user.cancelAt = none := hst0.2.2
   rw [evalThunk_negate] at hev
